@@ -18,6 +18,9 @@ type Clause struct {
 	Ord  int // 1-based ordinal among clauses of its kind
 	Line int
 	Tag  string // known-finding id, case name, ...
+	// `assumes <expr>`: a postcondition that callers may use but that is NOT proved of the body (an abstract predicate that
+	// only this function establishes, by definition); listed as an assumption
+	Assumed bool
 }
 
 type LoopSpec struct {
@@ -150,7 +153,7 @@ type ContractFile struct {
 var itemKeywords = map[string]bool{"spec": true, "lemma": true, "axiom": true, "typeinv": true, "interface": true,
 	"ghost": true, "guarded_by": true, "lockinv": true, "lockrely": true, "locklevel": true, "func": true, "const": true, "props": true, "extern": true, "canary": true, "funcfield": true}
 
-var clauseKeywords = map[string]bool{"mode": true, "instances": true, "requires": true, "ensures": true, "modifies": true,
+var clauseKeywords = map[string]bool{"mode": true, "instances": true, "requires": true, "ensures": true, "assumes": true, "modifies": true,
 	"pure": true, "trusted": true, "holds": true, "acquires": true, "releases": true, "decreases": true, "case": true, "use": true,
 	"local": true, "split": true, "overflow": true, "known": true, "noinline": true, "inline": true, "hint": true, "prop": true, "unchecked": true}
 
@@ -418,11 +421,12 @@ func ParseContractText(data, path, pkg string) (*ContractFile, error) {
 				return nil, err
 			}
 			cur.Requires = append(cur.Requires, cl)
-		case w == "ensures":
+		case w == "ensures" || w == "assumes":
 			cl, err := mk(rest, len(cur.Ensures)+1)
 			if err != nil {
 				return nil, err
 			}
+			cl.Assumed = w == "assumes"
 			cur.Ensures = append(cur.Ensures, cl)
 		case w == "modifies":
 			cur.HasModifies = true
